@@ -348,11 +348,13 @@ def compare(ctx, sets, abs_events, rules, fd, pl, e2e):
             kind = "panic" if any("panic" in e for e in errs) else "ctor_error"
             recs.append({"kind": kind, "rule_kind": r.kind, "cfg": r.cfg, "part": r.part, "error": errs[0][:300]})
             continue
-        vecs = [("pipeline.doActions", p["r1"]), ("pipeline.isMatch/permuted", p["r2"])]
+        vecs = [("pipeline.doActions", p["r1"]), ("pipeline.isMatch/permuted", p["r2"]),
+                ("pipeline.doActions/while another action is busy", p["r3"])]
         if r.kind == "doif":
             vecs += [("fd.Check", f["r1"]), ("fd.Check/permuted", f["r2"])]
         if e is not None:
             vecs.append(("fd.SetupActions+running pipeline/Do invoked", e["r1"]))
+            vecs.append(("fd.SetupActions+running pipeline/Do invoked while a later action holds a run", e["rb"]))
             n_e2e += 1
         for name, v in vecs:
             if len(v) != n:
